@@ -86,6 +86,10 @@ func tokenizeStream(src io.Reader, normalize bool, dict *dictionary, updateDict 
 	line := 1 // 1s-based count
 	deferredEOL := false
 	deferredWord := false
+	// deferredLines counts the line breaks swallowed by the hyphens of the word
+	// being assembled; they are added to line once the word has been credited
+	// to the line it began on.
+	deferredLines := 0
 	// the tokenizer uses a local dictionary to conserve memory while
 	// analyzing the input doc to avoid polluting the global dictionary
 	ld := newDictionary()
@@ -130,6 +134,7 @@ func tokenizeStream(src io.Reader, normalize bool, dict *dictionary, updateDict 
 					if obuf[len(obuf)-1] == '-' {
 						obuf = obuf[0 : len(obuf)-1]
 						deferredEOL = true
+						deferredLines++
 						continue
 					}
 
@@ -143,6 +148,12 @@ func tokenizeStream(src io.Reader, normalize bool, dict *dictionary, updateDict 
 					linebuf = nil
 					obuf = nil
 				}
+				// A hyphenated word that ends with its line is complete: count the
+				// line breaks it swallowed now, not at some later space.
+				line += deferredLines
+				deferredLines = 0
+				deferredEOL = false
+				deferredWord = false
 				if !normalize {
 					tokID := dict.getIndex(eol)
 					if tokID == unknownIndex {
@@ -192,7 +203,8 @@ func tokenizeStream(src io.Reader, normalize bool, dict *dictionary, updateDict 
 					deferredWord = false
 					// Increment the line count now so the remainder token is credited
 					// to the previous line number.
-					line++
+					line += deferredLines
+					deferredLines = 0
 				}
 				obuf = make([]byte, 0)
 				continue
